@@ -4,7 +4,8 @@
 // mergeDescs the name is replaced a generated number of times (rename away + create; every generation has its own
 // content). The model gets the same label sequence. Compared after every case: for every generation, how many workers
 // were started on it (model: `opened = some g`; implementation: how often its content was confirmed, each time from its
-// first byte). The window between the parser's open and the id check has no hook: it is covered by the theorems only.
+// first byte). The window between the parser's open and the id check is reached through the hook
+// scanner.newWorkerConfig.afterOpen (cases that need it are skipped on a tree without that hook line).
 package main
 
 import (
@@ -30,6 +31,9 @@ import (
 type syncStep struct {
 	Before int `json:"before"` // replacements before the sync
 	Inside int `json:"inside"` // replacements between scanPaths and mergeDescs of the sync
+	// replacements between the parser's open of the path and the id check (hook scanner.newWorkerConfig.afterOpen; it
+	// only runs when the sync starts a worker)
+	AfterOpen int `json:"after_open,omitempty"`
 }
 
 type syncCase struct {
@@ -37,26 +41,11 @@ type syncCase struct {
 	Steps   []syncStep `json:"steps"`
 }
 
-const syncStepsRule = "the real Scanner.sync called step by step on one watched name (export NewVerifStepScanner, fresh session) against Model/ScanSync.lean (driver request `sync`): before each sync and, through the hook scanner.sync.afterScanPaths, between its scanPaths and its mergeDescs the name is replaced 0..2 times (rename away + create, each generation with its own two lines). " +
+const syncStepsRule = "the real Scanner.sync called step by step on one watched name (export NewVerifStepScanner, fresh session) against Model/ScanSync.lean (driver request `sync`): before each sync and, through the hook scanner.sync.afterScanPaths, between its scanPaths and its mergeDescs and, through the hook scanner.newWorkerConfig.afterOpen, between the parser's open of the path and the id check the name is replaced 0..2 times (rename away + create, each generation with its own two lines); the model's label sequence is recorded as things happen. " +
 	"MODEL: for every generation the number of workers started on it. SPEC: no generation is confirmed more than once, each from its first byte, and the generation under the name after the last (quiet) sync is confirmed. non-trivial = at least one replacement, distinct by script"
 
 func genContent(g int) []byte {
 	return []byte(fmt.Sprintf("gen%d first line\ngen%d second line\n", g, g))
-}
-
-func syncLabels(c syncCase) string {
-	var ls []string
-	for _, s := range c.Steps {
-		for i := 0; i < s.Before; i++ {
-			ls = append(ls, "r")
-		}
-		ls = append(ls, "s")
-		for i := 0; i < s.Inside; i++ {
-			ls = append(ls, "r")
-		}
-		ls = append(ls, "m", "o", "c")
-	}
-	return "sync " + strings.Join(ls, " ")
 }
 
 // modelStarts parses `cur=… hit=… workers=k:o:off,…` into generation -> number of workers that opened it
@@ -92,7 +81,7 @@ func showStarts(m map[int]int) string {
 }
 
 // the hook is process-global: one case at a time
-func runSyncCase(c syncCase, sec *vh.Section, answer string) {
+func runSyncCase(c syncCase, sec *vh.Section) {
 	c.Section = "syncsteps"
 	if !verifhook.Enabled {
 		res.Note("syncsteps: hooks are not compiled in (build tag verif missing)")
@@ -106,10 +95,13 @@ func runSyncCase(c syncCase, sec *vh.Section, answer string) {
 		res.Note("syncsteps: %v", err)
 		return
 	}
+	// the label sequence of the model is recorded as things happen (the after-open hook only runs when a worker is started)
+	var labels []string
 	replace := func() {
 		os.Rename(fn, fmt.Sprintf("%s.%d", fn, gen))
 		gen++
 		os.WriteFile(fn, genContent(gen), 0644)
+		labels = append(labels, "r")
 	}
 	var clock int64
 	vs, err := scanner.NewVerifStepScanner(scanCfg(fn, "pure", 2, 3600, 3600), newMemStorage(&clock))
@@ -144,22 +136,45 @@ func runSyncCase(c syncCase, sec *vh.Section, answer string) {
 			}
 		}
 	}()
-	inside := 0
+	inside, afterOpen, openHooks := 0, 0, 0
 	verifhook.Set("scanner.sync.afterScanPaths", func() {
 		for i := 0; i < inside; i++ {
 			replace()
 		}
+		labels = append(labels, "m", "o")
 	})
-	nRepl := 0
+	verifhook.Set("scanner.newWorkerConfig.afterOpen", func() {
+		openHooks++
+		for ; afterOpen > 0; afterOpen-- {
+			replace()
+		}
+	})
+	nRepl, wantAfterOpen := 0, false
 	for _, s := range c.Steps {
 		for i := 0; i < s.Before; i++ {
 			replace()
 		}
-		inside = s.Inside
+		inside, afterOpen = s.Inside, s.AfterOpen
+		wantAfterOpen = wantAfterOpen || s.AfterOpen > 0
 		nRepl += s.Before + s.Inside
+		labels = append(labels, "s")
 		vs.Sync(ctx, events)
+		labels = append(labels, "c")
 	}
 	verifhook.Reset()
+	if wantAfterOpen && openHooks == 0 {
+		res.Note("syncsteps: the hook scanner.newWorkerConfig.afterOpen is not in this tree: cases with replacements between open and id check are skipped")
+		cancel()
+		cwg.Wait()
+		vs.Wait()
+		return
+	}
+	answer := ""
+	if driverUsable() {
+		if ans, err := vh.Batch(args.Driver, []string{"sync " + strings.Join(labels, " ")}); err == nil && len(ans) == 1 {
+			answer = ans[0]
+		}
+	}
 	// every started worker reads its file at once (two lines = one event); wait until nothing new has arrived for 400 ms
 	// (at most 5 s)
 	last, lastLen := time.Now(), -1
@@ -175,10 +190,14 @@ func runSyncCase(c syncCase, sec *vh.Section, answer string) {
 	cwg.Wait()
 	vs.Wait()
 	key := ""
-	if nRepl > 0 {
-		key = digest(c)
+	for _, l := range labels {
+		if l == "r" {
+			key = digest(c)
+		}
 	}
+	_ = nRepl
 	res.Eval(sec, key)
+	res.Dist(sec, fmt.Sprintf("replacement-between-open-and-id-check=%v", strings.Contains(strings.Join(labels, ""), "orc") || strings.Contains(strings.Join(labels, ""), "orr")))
 	res.Dist(sec, fmt.Sprintf("replacements-inside-a-sync=%v", func() bool {
 		for _, s := range c.Steps {
 			if s.Inside > 0 {
@@ -225,7 +244,7 @@ func runSyncCase(c syncCase, sec *vh.Section, answer string) {
 			return
 		}
 	}
-	if last := c.Steps[len(c.Steps)-1]; last.Inside == 0 && impl[gen] != 1 {
+	if last := c.Steps[len(c.Steps)-1]; last.Inside == 0 && last.AfterOpen == 0 && impl[gen] != 1 {
 		res.SpecFail(vh.SpecFailure{Section: "syncsteps", Kind: "current-file-not-watched", Input: c, ImplEqModel: eq, Model: answer,
 			Impl: showStarts(impl), Spec: fmt.Sprintf("gen%d×1 among them", gen),
 			What: "after a sync without a replacement inside, the file under the name must be read by one worker, from its beginning"})
@@ -242,6 +261,9 @@ func genSyncCase(rng *vh.Rng) syncCase {
 		if rng.Chance(1, 3) {
 			s.Inside = rng.Range(1, 2)
 		}
+		if rng.Chance(1, 4) {
+			s.AfterOpen = rng.Range(1, 2)
+		}
 		c.Steps = append(c.Steps, s)
 	}
 	return c
@@ -255,6 +277,8 @@ func sectionSyncSteps(rng *vh.Rng) {
 		{Steps: []syncStep{{Inside: 1}, {}}},                // the F-C17-901 schedule
 		{Steps: []syncStep{{}, {Before: 2}}},                // twice between two syncs
 		{Steps: []syncStep{{}, {Before: 1, Inside: 1}, {}}}, // before and inside
+		{Steps: []syncStep{{AfterOpen: 1}, {}}},             // between the parser's open and the id check
+		{Steps: []syncStep{{}, {Before: 1, AfterOpen: 2}, {}}},
 	}
 	n := 12
 	if args.Thorough {
@@ -263,23 +287,8 @@ func sectionSyncSteps(rng *vh.Rng) {
 	for i := 0; i < n; i++ {
 		cases = append(cases, genSyncCase(rng))
 	}
-	lines := make([]string, len(cases))
-	for i, c := range cases {
-		lines[i] = syncLabels(c)
-	}
-	var answers []string
-	if driverUsable() {
-		var err error
-		if answers, err = vh.Batch(args.Driver, lines); err != nil {
-			res.Fatal(args.Out, "driver: %v", err)
-		}
-	}
-	for i, c := range cases {
-		a := ""
-		if answers != nil {
-			a = answers[i]
-		}
-		runSyncCase(c, sec, a)
+	for _, c := range cases {
+		runSyncCase(c, sec)
 	}
 }
 
@@ -289,11 +298,5 @@ func replaySyncSteps(input json.RawMessage) {
 		res.Fatal(args.Out, "replay syncsteps: %v", err)
 	}
 	sec := res.Section("syncsteps", "unit-correspondence", syncStepsRule)
-	a := ""
-	if driverUsable() {
-		if ans, err := vh.Batch(args.Driver, []string{syncLabels(c)}); err == nil && len(ans) == 1 {
-			a = ans[0]
-		}
-	}
-	runSyncCase(c, sec, a)
+	runSyncCase(c, sec)
 }
